@@ -414,7 +414,8 @@ class HWorld:
         # which time steps they were last asked for is part of the state (access-order histories)
         hidden = (bool(self.hedger.training), _names(self.hedger), _names(self.hedger.model),
                   tuple(_names(d) for d in self.derivs), tuple(_names(p) for p in self.prims),
-                  self.access if self.aux else None, self.ambient)
+                  self.access if self.aux else None, self.ambient,
+                  any(q.grad is not None for q in self.hedger.parameters()))     # .grad left behind by backward/fit
         cp = None
         if self.copy is not None:
             cpo = getattr(self.copy, "prev_output", None)
@@ -499,9 +500,9 @@ class HWorld:
             if pd is not None and pd != self.data_dtype(i):
                 return False
             return True
-        if kind in ("loss", "price", "fit"):
-            if kind == "fit" and pd is None:
-                return False        # nothing to optimise
+        if kind in ("loss", "price", "fit", "backward"):
+            if kind in ("fit", "backward") and pd is None:
+                return False        # nothing to optimise / differentiate
             return pd is None or pd == self.prims[i].dtype
         raise KeyError(kind)
 
@@ -566,6 +567,11 @@ class HWorld:
             except RuntimeError as e:       # e.g. a stale graph kept by the hedger: an observation, not a harness error
                 grads = Raised(f"RuntimeError: {str(e)[:120]}")
             out = {"loss": loss.detach(), "grad": grads}
+        elif kind == "backward":
+            # gradient inspection / an interrupted training step: leaves .grad populated on the parameters
+            loss = h.compute_loss(self.derivs[op[1]], hedge=self.hedges[op[1]], n_paths=op[2])
+            loss.backward()
+            out = loss.detach()
         elif kind in ("eval", "train"):
             getattr(h, kind)()
             out = None
@@ -595,7 +601,7 @@ class HWorld:
             raise KeyError(kind)
         if kind == "input":
             self.access = (op[1], op[2])
-        elif kind in ("hedge", "pl", "loss", "price", "fit"):
+        elif kind in ("hedge", "pl", "loss", "price", "fit", "backward"):
             self.access = (op[1], None)      # a state-independent hedger evaluates get(None)
         self.post = snap_prims(self.prims) if observe else None
         self.post_hb = (snap_module_buffers(self.hedger), snap_module_buffers(self.copy)) if observe else None
@@ -695,10 +701,10 @@ def operations(variant, tier="thorough"):
         # the trainable Whalley-Wilmott hedger is there for the gradient observations: operations that change
         # mode, parameters, dtype and data around compute_loss (value + gradient)
         return [("hedge", 0), ("loss", 0, 2), ("loss", 1, 3), ("sim", 0, 3), ("hto", "float64"),
-                ("fit", 0, 2), ("eval",), ("train",)]
+                ("fit", 0, 2), ("eval",), ("train",), ("backward", 0, 2)]
     if tier == "quick":
         # deep copies of the hedger: in the quick tier for the Linear+prev_hedge hedger, in the thorough tier for all
-        return [("hedge", 0), ("hedge", 1), ("hedge", 2), ("pl", 0), ("pl", 1),
+        return [("hedge", 0), ("hedge", 2), ("pl", 0), ("pl", 1),
                 ("sim", 0, 2), ("sim", 0, 3), ("sim", 1, 3), ("sim", 2, 2), ("sim", 2, 3),
                 ("hto", "float64"), ("hto", "float32"),
                 ("dto", 0, "float64"), ("dto", 1, "float32"), ("dto", 2, "float64"),
@@ -707,7 +713,7 @@ def operations(variant, tier="thorough"):
                 ("input", 0, None), ("input", 2, 1), ("badprice", 0, 2),
                 # non-monotone get_input orders where bound features survive between calls (ModuleOutput binds in place)
                 ] + ([("input", 0, 2), ("input", 0, 1)] if variant == "modout" else []
-                     ) + ([("eval",)] if variant == "prev" else []                  # gradient path through prev_hedge
+                     ) + ([("eval",), ("backward", 0, 2)] if variant == "prev" else []                  # gradient path through prev_hedge
                           ) + ([("copy",), ("chedge", 0)] if variant == "prev" else [])
     ops = []
     for i in range(nd):
@@ -731,7 +737,7 @@ def operations(variant, tier="thorough"):
     for i in range(nd):
         for t in (None, 0, 1, DERIVS[i][3] - 1):      # non-monotone access orders arise as histories
             ops.append(("input", i, t))
-    ops += [("eval",), ("train",), ("copy",)]
+    ops += [("backward", 0, 2), ("backward", 1, 3), ("eval",), ("train",), ("copy",)]
     for i in range(nd):
         ops += [("badprice", i, 2), ("badpl", i)]
     ops.append(("badloss", 0, 2))
@@ -782,17 +788,17 @@ def data_projection(history):
         op = tuple(op)
         if op[0] in ("sim", "dto"):
             out.append(op)
-        elif op[0] in ("loss", "price", "fit", "badprice", "badloss"):
+        elif op[0] in ("loss", "price", "fit", "backward", "badprice", "badloss"):
             out.append(("sim", op[1], op[2]))
     return out
 
 
 def may_change(op):
     """Frame rule: index of the derivative whose series the operation may replace / cast."""
-    return op[1] if op[0] in ("sim", "dto", "loss", "price", "fit", "badprice", "badloss") else None
+    return op[1] if op[0] in ("sim", "dto", "loss", "price", "fit", "backward", "badprice", "badloss") else None
 
 
-ENTRY = {"default": "torch.set_default_dtype", "badprice": "Hedger.price", "badloss": "Hedger.compute_loss",
+ENTRY = {"backward": "Hedger.compute_loss", "default": "torch.set_default_dtype", "badprice": "Hedger.price", "badloss": "Hedger.compute_loss",
          "badpl": "Hedger.compute_pl", "eval": "Hedger.eval", "train": "Hedger.train", "copy": "copy.deepcopy(Hedger)", "chedge": "Hedger.compute_hedge",
          "sim": "BaseDerivative.simulate", "dto": "BaseDerivative.to", "hto": "Hedger.to",
          "hedge": "Hedger.compute_hedge", "pl": "Hedger.compute_pl", "input": "Hedger.get_input",
